@@ -487,7 +487,9 @@ def _compareDocumentPosition(self, other):
     sparents.reverse()
     oparents.reverse()
 
-    for i, sparent in enumerate(sparents):
+    # Look for the deepest common ancestor: the relative position is
+    # decided by the order of its two children that lead to the nodes
+    for i, sparent in reversed(list(enumerate(sparents))):
         for j, oparent in enumerate(oparents):
             if sparent is oparent:
                 s = sparents[i+1]
